@@ -49,6 +49,10 @@ def add_pyvc(rep: core.Report, ctx: core.Ctx, pid: str, files):
     obs, funcs = verify_contracts(paths, prop=pid, jobs=ctx.jobs)
     if not funcs:
         return []
+    from vf.pyvc.spec import load_contracts
+    assumed = sorted(q for q, c in load_contracts(paths).contracts.items() if c.assumed)
+    if assumed:
+        rep.assumptions.append("pyvc: ASSUMED contracts (trusted, not verified; callers are checked against them): " + ", ".join(assumed))
     rep.obligations += obs
     for f in funcs:
         if f not in rep.functions_under_contract: rep.functions_under_contract.append(f)
